@@ -44,6 +44,13 @@ class MyStr(str):
     pass
 
 
+class LabelStr(str):
+    """a str subclass whose str() is not the key itself (like `class Color(str, Enum)` on 3.11+)"""
+
+    def __str__(self):
+        return "<" + str.__str__(self) + ">"
+
+
 class MyTuple(tuple):
     pass
 
